@@ -100,6 +100,40 @@ def put_precondition(ctx, F, R="R-WHO"):
         ctx.ob("R-GUARD", "end-not-before-start|%d" % put.index(c), ok, "put is dominated by !(end < start)", fs.where(c.ln), what="from_sections inserts a range without rejecting end < start first (RangeInclusiveMap::insert panics on it)")
 
 
+def _eq_is_structural(F, e, adt):
+    """a hand-written `eq` that is the structural one: it calls nothing but `==` of the same field of the same variant of
+    its two arguments, does so for every field of every variant (variants of at most one field: no conjunction to get
+    wrong), and answers `true` nowhere else."""
+    a = F.adts.get(adt)
+    if a is None or any(len(v["fields"]) > 1 for v in a["variants"]) or e.argc != 2:
+        return False
+    want = {(v["name"], f["n"]) for v in a["variants"] for f in v["fields"]}
+    got = set()
+    for b in F.with_closures(e):
+        if b is not e:
+            return False
+        for c in b.calls:
+            if not re.search(r"cmp::PartialEq(<.*>)?>?::eq$|cmp::impls::<impl (std|core)::cmp::PartialEq<&B> for &A>::eq$", c.fn or c.name) or len(c.args) != 2:
+                return False
+            with b.alpha(args=True):
+                l, r = b.sname(c.args[0], 6).replace("&", "").replace("*", ""), b.sname(c.args[1], 6).replace("&", "").replace("*", "")
+            m1, m2 = re.match(r"^arg1@(\w+)\.(\w+)$", l), re.match(r"^arg2@(\w+)\.(\w+)$", r)
+            if not (m1 and m2):
+                m1, m2 = re.match(r"^arg2@(\w+)\.(\w+)$", l), re.match(r"^arg1@(\w+)\.(\w+)$", r)
+            if not (m1 and m2 and m1.groups() == m2.groups()):
+                return False
+            got.add(m1.groups())
+        for bi, si, st in b.stmts():
+            rv = st.get("rv")
+            if rv is None:
+                continue
+            if rv["k"] == "use" and op_const(rv["o"]) is not None and b.lty(st["lhs"]["l"]) == "bool" and const_int(op_const(rv["o"])) == 1:
+                return False
+            if rv["k"] in ("bin", "un") and b.lty(st["lhs"]["l"]) == "bool":
+                return False      # fields compared by something else than `==` of the whole field
+    return got == want
+
+
 def run(ctx):
     F = ctx.facts("default")
     R = "R-WHO"
@@ -144,7 +178,9 @@ def run(ctx):
     # or two different multi-unit targets that merely end alike are merged and the earlier range takes the later one's prefix
     eqs = F.fns("<BfRangeTarget as PartialEq>::eq")
     derived = bool(eqs) and all(all(st.get("x") for bi, si, st in e_.stmts()) and all(e_.term(bi).get("x") for bi in range(e_.n) if e_.term(bi)["k"] in ("call", "switch")) for e_ in eqs)
-    ctx.ob(R, "target-equality-is-structural", derived, "PartialEq for BfRangeTarget is the derived (field by field) one", eqs[0].where() if eqs else "src/encodings/cmap.rs",
+    if eqs and not derived and len(eqs) == 1:
+        derived = _eq_is_structural(F, eqs[0], "encodings::cmap::BfRangeTarget")
+    ctx.ob(R, "target-equality-is-structural", derived, "PartialEq for BfRangeTarget is the derived (field by field) one, or written out the same way", eqs[0].where() if eqs else "src/encodings/cmap.rs",
            what="BfRangeTarget compares equal by a hand-written rule: rangemap merges adjacent ranges whose targets are 'equal', so two definitions that differ in what the rule ignores are merged into one and decode alike")
     # 3. precondition of the map
     put_precondition(ctx, F)
@@ -289,7 +325,7 @@ def run(ctx):
          consts["ToUnicodeCMap::get bound"] == "4" and consts["ToUnicodeCMap::put bound"] == "4" and consts["bytes_to_string reset"] == "4"
     ctx.ob("R-TABLE", "max-code-length-agrees", ok, "every place uses 4 as the maximum code length: %s" % consts, sc.where(),
            what="the places that know the maximum source-code length disagree (%s): codes of the longest admitted length are parsed or looked up wrongly" % consts)
-    pw = [c for b in F.with_closures(sc) for c in b.calls if re.search(r"num::<impl u32>::pow$", c.fn or "")]
+    pw = [c for b in F.with_closures(sc) for c in b.calls if re.search(r"num::<impl u(32|64|128|size)>::pow$", c.fn or "")]
     ctx.ob("R-TABLE", "big-endian-code", len(pw) == 1 and any((c.fn or "").endswith("Iterator::rev") for c in sc.calls), "source codes are big-endian: 256^i over the reversed bytes", sc.where(),
            what="source codes are no longer assembled big-endian")
     # 6. code lengths tried in increasing order
